@@ -378,7 +378,7 @@ PROPS['C04'] = dict(
                  'teardown unregister/release is not "touching the output"'],
     jobs=[
         dict(name='pipelab', bin='pipelab', variant='asan', mode='c04',
-             quick=60000, thorough=3000000,
+             quick=300000, thorough=6000000,
              require=['c04.negotiations', 'c04.inputs_checked', 'op.sub_alloc',
                       'op.set_flow_def_bad']),
     ],
@@ -404,7 +404,7 @@ PROPS['C05'] = dict(
                  'unchanged (documented resize failure)'],
     jobs=[
         dict(name='pipelab', bin='pipelab', variant='asan', mode='c05',
-             quick=60000, thorough=3000000,
+             quick=300000, thorough=6000000,
              require=['c05.deliveries_checked', 'c05.async_deliveries_checked']),
     ],
 )
@@ -428,8 +428,10 @@ PROPS['C01'] = dict(
     assumptions=['allocation failure paths are outside the quantifier'],
     jobs=[
         dict(name='pipelab', bin='pipelab', variant='asan', mode='c01',
-             quick=60000, thorough=3000000,
+             quick=300000, thorough=6000000, leak_check=True,
              require=['c01.accounted_cases']),
+        dict(name='pipelab-requests', bin='pipelab', variant='asan', mode='c12',
+             quick=60000, thorough=1500000, leak_check=True),
     ],
 )
 
@@ -483,5 +485,35 @@ PROPS['C14'] = dict(
         dict(name='pipelab', bin='pipelab', variant='asan', mode='c14',
              quick=40000, thorough=2000000,
              require=['c14.units_checked', 'c14.cuttings_compared']),
+    ],
+)
+
+PROPS['C12'] = dict(
+    engine='pipelab',
+    key_prefixes=['c12:', 'asan:', 'abort:', 'crash:', 'timeout'],
+    technique='runtime monitoring: registration model {request -> where it '
+              'must currently be lodged} checked at every quiescent point '
+              'against recording sinks / probes (proxy chains followed back '
+              'to the original request), recording requester callbacks',
+    level_text='Random histories of register / unregister / set_output (next '
+               'pipe, sink, none) / provide / late provide / release over '
+               'chains of 1-3 request-forwarding pipes with 5 request types, '
+               'providers at sinks (immediate, late, silent) and at probes '
+               '(real uprobe_uref_mgr / ubuf_mem / uclock): exactly one '
+               'lodging on the current output, withdrawal from the old one, '
+               'answers reach the original requester, no callback after '
+               'unregistration, nothing left on the sinks after release.',
+    level_note=PIPELAB_NOTE + ' In-thread chains; the queue crossing is '
+               'covered with C06.',
+    rule='case = one chain + 8-32 operations, quiescent check after each; '
+         'distinct = hash of the operation sequence; every case is non-trivial',
+    assumptions=['after set_output(NULL) pending requests simply stay '
+                 'pending (nothing to re-issue them to)',
+                 'sink latency answers may be modified by pipes on the way'],
+    jobs=[
+        dict(name='pipelab', bin='pipelab', variant='asan', mode='c12',
+             quick=100000, thorough=3000000, leak_check=True,
+             require=['c12.lodging_checks', 'c12.answered', 'c12.replumb',
+                      'c12.unregister']),
     ],
 )
